@@ -89,5 +89,13 @@ PROPS['C19']['assumptions'] = PROPS['C19']['assumptions'] + [
     'policy clause: class strings over {upper, lower, digit, symbol, whitespace, two-byte lower} up to length 4 (quick) / 5 (thorough) '
     'for 40 / 120 rule vectors (each bound alone, the shipped default, seeded random vectors), lengths in bytes']
 
+PROPS['C18'] = dict(engine='faults', level='fault_enumeration', quick={}, thorough={},
+                    foot=['C01.sessionOnlyByCredential', 'C01.otherBrowserUntouched', 'C02.primaryOnlyParks', 'C03.noLoginWhileBlocked', 'C13.changeAuthorised'],
+                    technique='fault injection at every backend call of requests inside random scenarios; each faulted step is judged by TLC (spec/Trace.tla) against the C18 clauses of spec/Props.tla with the fault-free specification step as the reference',
+                    assumptions=['backends = harness store (Load/Save/Create/LoadBy*Selector/remember-token calls/OAuth2 calls), hasher, view and mail renderer, SMS sender, mailer, provider lookup; error kinds: generic I/O error at every call, ErrUserNotFound at load/save calls, ErrTokenNotFound at UseRememberToken',
+                                 'both the shipped log-only error handler and a 500-writing one are configured (random per scenario)',
+                                 'lock.Middleware / confirm.Middleware document that they panic when the user cannot be loaded; in the harness chain they sit behind Middleware2, which has already loaded and cached the user, so that documented panic is not reachable and any panic is a violation',
+                                 'the specification has no fault model: a faulted step is not compared for conformance, only against the fault clauses and the fault-tolerant general clauses'])
+
 import components
-COMPONENT = {'mwtable': components.mwtable, 'clientstate': components.clientstate, 'redirect': components.redirect, 'rules': components.rules, 'codecs': components.codecs}
+COMPONENT = {'mwtable': components.mwtable, 'clientstate': components.clientstate, 'redirect': components.redirect, 'rules': components.rules, 'codecs': components.codecs, 'faults': components.faults}
